@@ -399,6 +399,11 @@ class LowerToIRVisitor(Visitor.DefaultVisitor):
     def v_ConstructPrimitiveExpression(self, expr, ctx):
         values = [self.v_Visit(e, ctx) for e in expr]
 
+        if expr.GetType().IsScalar():
+            # float(x), int(x): the implicit cast pass has already converted
+            # the single argument to the constructed type
+            return values[0]
+
         cpi = LinearIR.ConstructPrimitiveInstruction(
             ctx.AdaptType(expr.GetType()), values
         )
